@@ -213,9 +213,11 @@ def families():
     add(Fam('TypeAlias', 'type_params', lambda el: 'type A' + brk(el) + ' = int', B0, tps, None, str, 0))
     add(Fam('Import', 'names', _fmt('import {X}'), B0, ['a', 'b as c', 'd.e', 'f.g as h', 'i'], None, str, 1, default=True))
     add(Fam('ImportFrom', 'names', _fmt('from m import {X}'), B0, ['a', 'b as c', 'd', 'e as f'], None, str, 1, default=True))
-    wis = ['a', 'b as c', 'd() as e', 'f.g', 'h as (i, j)']
-    add(Fam('With', 'items', _fmt('with {X}: pass'), B0, wis, None, str, 1))
-    add(Fam('AsyncWith', 'items', _fmt('async def w():\n    async with {X}: pass'), lambda t: t.body[0].body[0], wis, None, str, 1))
+    wis = ['(p, q)', 'a', 'b as c', '(r)', 'd() as e', 'f.g', 'h as (i, j)']        # `(p, q)` / `(r)` alone must not become two items / lose meaning
+    # a sole parenthesized item without `as` needs its own grouping parentheses to stay ONE item (`with (p, q):` is two items)
+    wj = lambda el: '(' + el[0] + ')' if len(el) == 1 and el[0].startswith('(') and ' as ' not in el[0] else ', '.join(el)
+    add(Fam('With', 'items', lambda el: 'with ' + wj(el) + ': pass', B0, wis, None, str, 1))
+    add(Fam('AsyncWith', 'items', lambda el: 'async def w():\n    async with ' + wj(el) + ': pass', lambda t: t.body[0].body[0], wis, None, str, 1))
     pat = lambda t: t.body[0].cases[0].pattern
     add(Fam('MatchSequence', 'patterns', _fmt('match x:\n    case [{X}]: pass'), pat, PATS, tup, str, 0, default=True))
     add(Fam('MatchOr', 'patterns', _fmt('match x:\n    case {X}: pass', ' | '), pat, ORPATS, lambda el: ' | '.join(el), str, 2, default=True))
@@ -582,7 +584,7 @@ def run_form_product_case(fi):
     else:
         old, rest = fam.pool[:n], fam.pool[n:]
     out = []
-    reqs = [(1, 2), (0, 0), (n, n), (0, n), (1, 1), (0, 1)]
+    reqs = [(1, 2), (0, 0), (n, n), (0, n), (1, 1), (0, 1), (0, 2), (1, n), (2, n)]
     news = [rest[:1], rest[:2]]
     if fam.code is tup and fam.kind in ('Tuple', 'List', 'Set', 'Delete'):
         news += [['[p, q]'], ['(p, q)']] + ([['{p, q}']] if fam.kind != 'Delete' else [])
@@ -605,6 +607,18 @@ def run_form_product_case(fi):
             E = []
             if not new:
                 out += _exec_entries(fam, src, exp, _entries(fam, n, a, b, s_, e_, new, rng), base)
+                if not fam.pick and s_ < e_:
+                    # the same deletion on every rotation of the elements: each element gets to be the sole / first / last survivor
+                    for r_ in range(1, n):
+                        old_r = old[r_:] + old[:r_]
+                        want_r = old_r[:s_] + old_r[e_:]
+                        try:
+                            src_r = render(old_r)
+                            exp_r = _dump(ast.parse(render(want_r)), fam)
+                            ast.parse(src_r)
+                        except SyntaxError:
+                            continue
+                        out += _exec_entries(fam, src_r, exp_r, _entries(fam, n, a, b, s_, e_, new, rng), dict(base, src=src_r, want=want_r, rot=r_))
                 continue
             for so in (False, None):
                 E += _entries(fam, n, a, b, s_, e_, new, rng, so=so, with_single=so is False)
@@ -629,6 +643,111 @@ def run_form_product_case(fi):
                                   bare=True)
             out += _exec_entries(fam, src, exp, E, base)
     return out
+
+
+# ---- Compare with its operators; options given per call, by `with FST.options(...)` and by FST.set_options(...) ----------------
+
+_CMP_OPERANDS = ['a', 'b', 'c.d', 'e()']
+_CMP_OPS = ['<', '==', '>']
+
+
+def _cmp_src(operands, ops):
+    return 'x = ' + operands[0] + ''.join(f' {o} {v}' for o, v in zip(ops, operands[1:]))
+
+
+def run_compare_product_case(arg):
+    """Deterministic: `a < b == c.d > e()`: every slice delete leaving >= 2 operands and every single-operand insert, with
+    op_side 'left' / 'right' (and the extra `op` for inserts) supplied through each CHANNEL - call keyword, `with
+    FST.options(...)`, `FST.set_options(...)` - and every entry point that channel allows (del view[a:b], view[a:b] = None,
+    ... take no keywords).  Plain-list model of operands AND operators: a deleted operand takes the operator on the requested
+    side with it (the only possible side at the first / last operand), an inserted operand brings its operator on that side.
+    Full dump (operators included) and source judged."""
+    from fst import FST
+    side, channel = arg
+    out = []
+    X, P = _CMP_OPERANDS, _CMP_OPS
+    n = len(X)
+    src = _cmp_src(X, P)
+
+    def run(name, fn, want_src, a, b, extra, kw):
+        rec = {'fam': 'Compare._all', 'tag': f'ops/{channel}', 'op': name, 'sigop': f'{name}/{channel}', 'src': src, 'a': a, 'b': b,
+               'new': extra, 'layout': False, 'compare_args': [side, channel]}
+        exp = ast.dump(ast.parse(want_src))
+        saved = None
+        try:
+            root = _fst(src)
+            node = root.a.body[0].value.f
+            if channel == 'kwarg':
+                fn(node, kw)
+            elif channel == 'context':
+                with FST.options(**kw):
+                    fn(node, {})
+            else:
+                saved = FST.set_options(**kw)
+                fn(node, {})
+            got = ast.dump(root.a)
+            if got != exp:
+                rec['fail'], rec['detail'] = 'structure', f'{root.src!r} instead of {want_src!r} (op_side={side!r} given by {channel})'
+            else:
+                d = _source_check(root, exp)
+                if d:
+                    rec['fail'], rec['detail'] = 'source', d
+        except _Skip:
+            return
+        except Exception as ex:
+            rec['fail'], rec['detail'] = 'raised:' + type(ex).__name__, str(ex)[:200]
+        finally:
+            if saved is not None:
+                FST.set_options(**saved)
+        out.append(rec)
+
+    kwless = channel != 'kwarg'
+    for s_ in range(n):
+        for e_ in range(s_ + 1, n + 1):
+            if n - (e_ - s_) < 2:
+                continue
+            eff = 'right' if s_ == 0 else 'left' if e_ == n else side
+            ops = P[:]
+            if eff == 'left':
+                del ops[s_ - 1:e_ - 1]
+            else:
+                del ops[s_:e_]
+            want = _cmp_src(X[:s_] + X[e_:], ops)
+            kw = {'op_side': side}
+            sl_ = slice(s_, e_)
+            run('put_slice(None)', lambda nd, k: nd.put_slice(None, s_, e_, '_all', **k), want, s_, e_, [], kw)
+            run('put(None,a,b)', lambda nd, k: nd.put(None, s_, e_, '_all', **k), want, s_, e_, [], kw)
+            run('view[a:b].remove', lambda nd, k: nd._all[sl_].remove(**k), want, s_, e_, [], kw)
+            run('view[a:b].replace(None)', lambda nd, k: nd._all[sl_].replace(None, **k), want, s_, e_, [], kw)
+            run('view[a:b].cut', lambda nd, k: nd._all[sl_].cut(**k), want, s_, e_, [], kw)
+            if kwless:
+                run('del view[a:b]', lambda nd, k: nd._all.__delitem__(sl_), want, s_, e_, [], kw)
+                run('view[a:b]=None', lambda nd, k: nd._all.__setitem__(sl_, None), want, s_, e_, [], kw)
+                run('del node[a:b]', lambda nd, k: nd.__delitem__(sl_), want, s_, e_, [], kw)
+                if e_ - s_ == 1:
+                    run('del view[i]', lambda nd, k: nd._all.__delitem__(s_), want, s_, e_, [], kw)
+                    run('view[i]=None', lambda nd, k: nd._all.__setitem__(s_, None), want, s_, e_, [], kw)
+    for i in range(n + 1):
+        eff = 'right' if i == 0 else 'left' if i == n else side
+        ops = P[:]
+        ops.insert(i - 1 if eff == 'left' else i, '!=')
+        want = _cmp_src(X[:i] + ['zz'] + X[i:], ops)
+        kw = {'op_side': side, 'op': '!='}
+        run('put_slice(insert)', lambda nd, k: nd.put_slice('zz', i, i, '_all', **k), want, i, i, ['zz'], kw)
+        run('insert', lambda nd, k: nd.insert('zz', i, '_all', **k), want, i, i, ['zz'], kw)
+        run('view.insert', lambda nd, k: nd._all.insert('zz', i, **k), want, i, i, ['zz'], kw)
+        if kwless:
+            run('view[i:i]=', lambda nd, k: nd._all.__setitem__(slice(i, i), 'zz'), want, i, i, ['zz'], kw)
+        if i == n:
+            run('append', lambda nd, k: nd.append('zz', '_all', **k), want, i, i, ['zz'], kw)
+            run('view.append', lambda nd, k: nd._all.append('zz', **k), want, i, i, ['zz'], kw)
+        if i == 0:
+            run('prepend', lambda nd, k: nd.prepend('zz', '_all', **k), want, i, i, ['zz'], kw)
+    return out
+
+
+def compare_items():
+    return [(side, ch) for side in ('left', 'right') for ch in ('kwarg', 'context', 'set_options')]
 
 
 # ---- raw mode and the `to` option ------------------------------------------------------------------------------------------
